@@ -190,6 +190,8 @@ impl World {
                 }
                 self.open[c] = false;
                 self.active[c] = false;
+                // the handler dies with its connection: a report it had not delivered yet never arrives
+                self.deferred.retain(|(x, _)| *x != c);
                 let ep = endpoint(c);
                 let rem = if self.open[c ^ 1] { 1 } else { 0 };
                 self.evs.push(json!({"e": "close", "p": p, "c": c}));
